@@ -246,17 +246,18 @@ SLOT_UNMARSHAL_BLOCK = """{{- define "variant_dataquery_field_unmarshal" }}
 """
 
 
-def slot_scenario(ctx, verdict, n_schemas=3):
+def slot_scenario(ctx, verdict, n_schemas=3, replays=None):
+    """replays: replay jobs of this scenario (meta kind composable-slot): their schema text and documents are used
+    instead of generated ones"""
     rng = ctx.rng
     odir = os.path.join(ctx.scratch, "c13slot_tmpl")
     os.makedirs(odir, exist_ok=True)
     with open(os.path.join(odir, "dataquery_unmarshal.tmpl"), "w") as f:
         f.write(SLOT_UNMARSHAL_BLOCK)
-    go_opts = dict(gencode.GO_OPTS_DEFAULT, overrides_templates=[odir], generate_strict_unmarshaller=False,
-                   generate_validate=False)
+    go_opts = dict(gencode.GO_OPTS_DEFAULT, overrides_templates=[odir])
     camp = gencode.Campaign(ctx, "c13slot", go_opts=go_opts)
     plan = []
-    for k in range(n_schemas):
+    for k in range(len(replays) if replays else n_schemas):
         pkg = "q%03d" % k
         extra = rng.choice([[], [("size", {"type": "integer"})], [("tags", {"type": "array", "items": {"type": "string"}})]])
         slot_required = False        # an unset REQUIRED slot makes the generated Equals call a nil interface
@@ -265,7 +266,11 @@ def slot_scenario(ctx, verdict, n_schemas=3):
         schema = {"$schema": "http://json-schema.org/draft-07/schema#", "$ref": "#/definitions/Root",
                   "definitions": {"Root": {"type": "object", "properties": props,
                                            "required": ["name"] + (["target"] if slot_required else [])}}}
-        sid = camp.add_schema_text(pkg, "jsonschema", json.dumps(schema, indent=1))
+        text = json.dumps(schema, indent=1)
+        if replays:
+            text = replays[k]["schema_text"]
+            extra = [(n_, None) for n_ in ("size", "tags") if '"%s"' % n_ in text]
+        sid = camp.add_schema_text(pkg, "jsonschema", text)
         passes = os.path.join(camp.batch.in_dir, pkg + "_passes.yaml")
         with open(passes, "w") as f:
             f.write("passes:\n  - retype_field:\n      field: %s.Root.target\n      as:\n        kind: composable_slot\n"
@@ -285,8 +290,11 @@ def slot_scenario(ctx, verdict, n_schemas=3):
     stats = {"schemas": len(plan), "generated_and_compiled": len(ok), "jobs": 0, "pairs": 0,
              "gen_errors": [repr(camp.batch.gen[s_])[:300] for s_, _ in plan if camp.batch.gen[s_].status != "OK"][:2],
              "compile_errors": [str(v)[:300] for v in camp.batch.compile_errors.values()][:2]}
-    for sid, extra in plan:
+    for k, (sid, extra) in enumerate(plan):
         if sid not in ok:
+            continue
+        if replays:
+            camp.add_job(sid, "Root", [srcgen.loads(d) for d in replays[k]["docs"]], meta={"kind": "composable-slot"})
             continue
         for _ in range(3):
             name = rng.choice(["deploys", "a", ""])
@@ -335,6 +343,12 @@ def slot_scenario(ctx, verdict, n_schemas=3):
 def run(ctx, verdict, replay=None, model_ok=True):
     rng = ctx.rng
     thorough = ctx.tier == "thorough"
+    if replay:
+        rj = gencode.Campaign.replay_jobs(replay)
+        if rj and (rj[0].get("meta") or {}).get("kind") == "composable-slot":
+            stats = slot_scenario(ctx, verdict, replays=rj)
+            return {"coverage": {"composable_slot_scenario": stats}, "unexplained_mismatches": [],
+                    "search_note": "replay of a composable-slot case"}
     camp = gencode.Campaign(ctx, "c13")
     plan = []       # (sid, schema or None)
     replay_jobs = []
